@@ -44,6 +44,7 @@ Bad(r) ==
            ELSE {<<"libtest", "verdict-disagrees-with-failed-total">>})
      \cup (IF r.info.junit.status_mismatch = 0 THEN {} ELSE {<<"junit", "testcase-status-contradicts-its-entries">>})
      \cup (IF r.info.junit.totals_mismatch = 0 THEN {} ELSE {<<"junit", "suite-totals-differ-from-its-testcases">>})
+     \cup (IF r.info.junit.message_mismatch = 0 THEN {} ELSE {<<"junit", "failure-message-attribute-is-not-the-failure-message">>})
      \* "under its feature": a feature with a source path is ONE object of the Cucumber JSON document
      \* (path-less features have no key to be grouped by; the writer opens a new object per event for them)
      \cup (IF r.info.json.dup_features = 0 THEN {} ELSE {<<"json", "feature-with-a-source-path-listed-more-than-once">>})
